@@ -62,8 +62,9 @@ Proof. eexists; eexists; split; vm_compute; reflexivity. Qed.
    marker, computed from the FAR list as STORED BEFORE the message ([static_markers]: no dependence on the order of the
    updates); a rejected or unknown-session modification emits none *)
 From UPF Require Import Model.World Proofs.WorldProofs Proofs.ModImage Proofs.ModWorld Proofs.ModMarkers.
-Theorem C14_guarded_markers_static : forall burst a c seid cpf cp cf cq up uf uq rp rf rq a' c' o,
-  mod_ok a c (MMod seid cpf cp cf cq up uf uq rp rf rq) = true ->
+Theorem C14_guarded_markers_static : forall burst w ci seid cpf cp cf cq up uf uq rp rf rq a' c' o,
+  let a := w_agent w in let c := get_conn ci (w_conns w) in
+  mod_ok burst w ci (MMod seid cpf cp cf cq up uf uq rp rf rq) = true ->
   handle_mod burst a c seid cpf cp cf cq up uf uq rp rf rq = Done (a', c', o) ->
   o_markers o = [] \/
   exists s0 fs ups,
@@ -82,7 +83,7 @@ Print Assumptions C14_guarded_markers_static.
 Theorem C14_markers_to_installed_tunnel : forall burst es w w' ci cn seid cpf cp cq up uf uq rp rf rq draws w'' o,
   (forall x, In x (states burst w es) -> envelope burst x /\ alloc_backed x) ->
   guarded_hist burst w es = true -> image_ok burst w -> wrun burst w es = Done w' ->
-  mod_ok (w_agent w') (get_conn ci (w_conns w')) (MMod seid cpf cp [] cq up uf uq rp rf rq) = true ->
+  mod_ok burst w' ci (MMod seid cpf cp [] cq up uf uq rp rf rq) = true ->
   wstep burst w' (WMsg ci cn (MMod seid cpf cp [] cq up uf uq rp rf rq) draws) = Done (w'', o) ->
   forall m, In m (o_markers o) ->
     exists s0 f u ups,
@@ -115,7 +116,7 @@ Example C14_history_nonvacuous :
   exists w' w'' o,
     (forall x, In x (states burst w0 es) -> envelope burst x /\ alloc_backed x) /\
     guarded_hist burst w0 es = true /\ image_ok burst w0 /\ wrun burst w0 es = Done w' /\
-    mod_ok (w_agent w') (get_conn 0 (w_conns w')) (MMod 5 None [] [] [] [] [ufar2; ufar99; ufar1] [] [] [] []) = true /\
+    mod_ok burst w' 0 (MMod 5 None [] [] [] [] [ufar2; ufar99; ufar1] [] [] [] []) = true /\
     wstep burst w' (WMsg 0 true (MMod 5 None [] [] [] [] [ufar2; ufar99; ufar1] [] [] [] []) []) = Done (w'', o) /\
     o_markers o = [Marker 100 8 6] /\
     t_get [2; 5] (t_far (a_tables (w_agent w'))) = Some [1; 0; 1; 100; 8; 6; 2152] /\
